@@ -10,11 +10,11 @@ package hash
 // The once key is built from the Taskfile location and the task's local name.
 //@ func Name
 //@   pure allocates
-//@   site (*Task).LocalName#1 requires arg0 == t                                                    [C06]
+//@   site (*Task).LocalName#0 requires arg0 == t                                                    [C06]
 //@   ensures result.1 == nil                                                                        [C06]
 
 // The when_changed key hashes the whole compiled task with hashstructure's default options (order sensitive,
 // every exported field); what hashstructure covers is examined by the structural clause fields_hashed.
 //@ func Hash
 //@   pure allocates
-//@   site v2.Hash#1 requires arg0 == box(type(*ast.Task), t) && arg2 == nil     -- the WHOLE compiled task, its variables included: two calls with different variables are different executions   [C06,C01,C11]
+//@   site v2.Hash#0 requires arg0 == box(type(*ast.Task), t) && arg2 == nil     -- the WHOLE compiled task, its variables included: two calls with different variables are different executions   [C06,C01,C11]
